@@ -320,12 +320,24 @@ pub fn check(args: &Args, prop: Prop) -> i32 {
         exit = 1;
     }
     // the systematic part: expression form x binding position x changed subset x marking style
-    let grid_world = move |i: u64| if prop == Prop::C11 { crate::grid::world11(seed, i) } else { crate::grid::world(seed, i) };
-    let grid_n = match prop {
+    // the thorough tier walks the grid several times: other subset orders, knobs and schedules
+    let grid_base = match prop {
         Prop::C06 | Prop::C07 => crate::grid::count(),
         Prop::C11 => crate::grid::count11(),
         _ => 0,
     };
+    let grid_rounds: u64 = if thorough { 12 } else { 1 };
+    let grid_world = move |i: u64| {
+        let round = i / grid_base.max(1);
+        let idx = i % grid_base.max(1);
+        let s = if round == 0 { seed } else { mix(seed, "grid.round", round) };
+        if prop == Prop::C11 {
+            crate::grid::world11(s, idx)
+        } else {
+            crate::grid::world(s, idx)
+        }
+    };
+    let grid_n = grid_base * grid_rounds;
     let gouts = parallel_map(grid_n, args.workers, move |i| run_explicit(prop_name(prop), &grid_world(i), false));
     let mut grid_reported: Vec<String> = vec![];
     let mut grid_violating = 0u64;
